@@ -42,6 +42,9 @@ var errInjected = errors.New("injected: org.apache.hadoop.hbase.DoNotRetryIOExce
 func scanRun(c scanCase) (out Outcome) {
 	var o Outcome
 	res := inBubble(theT, func() { o = scanRunInBubble(c) })
+	if o, stuck := stuckVerdict(res); stuck {
+		return o
+	}
 	if res.Deadlock != "" {
 		return viol("scan-hang", "bubble deadlocked or goroutines left behind: %s", res.Deadlock)
 	}
@@ -52,8 +55,24 @@ func scanRun(c scanCase) (out Outcome) {
 }
 
 func scanRunInBubble(c scanCase) (out Outcome) {
+	m := newScanModel(c.Spec)
+	out = scanOnce(c, m)
+	if out.Sig != "" || !c.Spec.Twice || c.End.Kind != "exhaust" {
+		return out
+	}
+	m.reset()
+	second := scanOnce(c, m)
+	if second.Sig != "" {
+		second.Sig = "second-scan:" + second.Sig
+		second.Msg = "the same scan, run a second time against the same cached regions: " + second.Msg
+		return second
+	}
+	out.Labels = append(out.Labels, "scanned_twice")
+	return out
+}
+
+func scanOnce(c scanCase, m *scanModel) (out Outcome) {
 	spec := c.Spec
-	m := newScanModel(spec)
 	ctx, cancel := context.WithCancel(context.Background())
 	defer cancel()
 	var extra []func(hrpc.Call) error
@@ -434,6 +453,7 @@ func scanSpecGen(t *rapid.T) scanSpec {
 	s.Partials = rapid.IntRange(0, 3).Draw(t, "partials") == 0
 	s.Tape = rapid.SliceOfN(rapid.Byte(), 0, 24).Draw(t, "tape")
 	s.EmptyFragments = rapid.IntRange(0, 7).Draw(t, "emptyfrag") == 0
+	s.Twice = rapid.IntRange(0, 3).Draw(t, "twice") == 0
 	return s
 }
 
